@@ -67,13 +67,16 @@ def coded_affinity(n):
 
 
 def kernel_params(rng, name):
+    # boundary values on purpose: a parameter that is exactly 0 / 0.0 (homogeneous polynomial, sigmoid without offset)
+    # is as legal as any other and must be forwarded as given
+    zero = [0, 0.0][int(rng.integers(0, 2))]
     if name in ("poly", "polynomial"):
         return {"degree": int(rng.integers(1, 4)), "gamma": float(rng.uniform(0.05, 0.6)),
-                "coef0": float(rng.uniform(0, 2))}
+                "coef0": zero if rng.random() < 0.3 else float(rng.uniform(0, 2))}
     if name in ("rbf", "laplacian", "chi2"):
         return {"gamma": float(rng.uniform(0.02, 0.8))}
     if name == "sigmoid":
-        return {"gamma": float(rng.uniform(0.01, 0.2)), "coef0": float(rng.uniform(-1, 1))}
+        return {"gamma": float(rng.uniform(0.01, 0.2)), "coef0": zero if rng.random() < 0.3 else float(rng.uniform(-1, 1))}
     return {}
 
 
